@@ -191,6 +191,10 @@ C15a_DofCountsWeighted == IsWLS => DofCountsWeighted(c.A, W_, exp)
 C15a_NormalPosDef == IsWLS => NormalPosDef(c.A, W_)
 C15a_NoBetterNeighbour == IsWLS => NoBetterNeighbour(c.A, c.b, W_, exp)
 C15a_ZeroWeightIgnored == IsWLS => ZeroWeightIgnored(c.A, c.b, W_, exp)
+C15a_HomogeneousInB == IsWLS => HomogeneousInB(c.A, c.b, c.s, exp, 2)
+C15a_HomogeneousInS == IsWLS => HomogeneousInS(c.A, c.b, c.s, exp, 2)
+C15a_HomogeneousInA == IsWLS => HomogeneousInA(c.A, c.b, c.s, exp, 2)
+C15a_ModelShift == IsWLS => ModelShift(c.A, c.b, c.s, exp, SubSeq(ShiftZ, 1, Cols(c.A)))
 
 IsPc == c.kind = "pcomp"
 C15b_ScatterSymmetric == IsPc => ScatterSymmetric(c.x)
